@@ -20,7 +20,9 @@ RULE = ('victim kinds {new, update, multi, big 70-140kB, undo, restore with expl
         'after a random prefix history on FileStorage (with blob dir), plus MappingStorage and DemoStorage(mapping / file changes) for '
         'the protocol-level sites. Sites per victim: abort after each protocol step (begin, each store, vote); each raw write/truncate '
         'on Data.fs/.tmp/blob files between begin and vote x {raise ENOSPC, short write}; quota reached at each store; stale serial at '
-        'each store position; user/description/extension of 65536 bytes; calls with a foreign transaction object at every phase. '
+        'each store position; user/description/extension of 65536 bytes; calls with a foreign transaction object at every phase; '
+        'commits through the DB/Connection API failing by over-long metadata, by another participant failing in each phase and by a '
+        'conflict (file, demo over file, mapping). '
         'Every site runs on a freshly copied and reopened pre-state, with warm and cold pooled readers probing between fault and '
         'abort. Oracle: data file bytes+size, observation (iterator, loads, lastTransaction, len), getSize, blob directory listing '
         'and hashes equal the pre-transaction snapshot; commit lock free (read from the lock object); a follow-up transaction that '
@@ -33,7 +35,7 @@ LEVEL_NOTE = ('Faults are one-shot (later operations succeed; otherwise no clean
               'the status flip are crashes (C01). .tmp contents and log output are not state.')
 ASSUMPTIONS = ['cleanup after a failure = tpc_abort(transaction), as the transaction package does']
 REQUIRED_COUNTERS = ('fault_sites', 'faults_fired', 'abort_points', 'raw_op_faults', 'stale_serial_sites', 'quota_sites', 'metadata_sites',
-                     'foreign_transaction_calls_rejected', 'followup_commits', 'snapshots_compared')
+                     'foreign_transaction_calls_rejected', 'followup_commits', 'snapshots_compared', 'db_level_sites')
 EXHAUSTIVE = {'quick': False, 'thorough': False}
 
 KINDS = ['new', 'update', 'multi', 'big', 'undo', 'restore', 'delete', 'blob', 'resolved']
@@ -610,9 +612,122 @@ def run_victim_blobwrap(sh, s, d, case):
     return 'blobwrap'
 
 
+def run_victim_db(sh, s, d, case):
+    """commits through the DB/Connection API that fail before the finish: over-long metadata rejected by the storage's
+    tpc_begin, another participant failing in each phase, a conflict; afterwards nothing changed, nobody is blocked"""
+    import hashlib
+    import ZODB
+    import ZODB.MappingStorage
+    import ZODB.DemoStorage
+    import transaction
+    from zv import recfs, clock, objs
+    from zv.observe import observe, first_diff
+    from zv.shadow import FailingRM
+    from ZODB.POSException import ConflictError
+    rnd = random.Random(s)
+    FSM = recfs.install()
+    recfs.LOG.reset()
+    recfs.LOG.enabled = False
+    clock.install(clock.FakeClock())
+    ZODB.DemoStorage.random = random.Random(s)
+    kind = rnd.choice(['file', 'file', 'demo-file', 'mapping'])
+    path = os.path.join(d, 'DB.fs')
+    st = (FSM.FileStorage(path) if kind == 'file' else
+          ZODB.DemoStorage.DemoStorage(base=ZODB.MappingStorage.MappingStorage(), changes=FSM.FileStorage(path)) if kind == 'demo-file'
+          else ZODB.MappingStorage.MappingStorage())
+    db = ZODB.DB(st)
+    with db.transaction() as c:
+        c.root()['a'] = objs.Cell('a0')
+        c.root()['b'] = objs.Cell('b0')
+    tm = transaction.TransactionManager()
+    c = db.open(tm)
+    sites = ['meta-description', 'meta-user', 'meta-extension', 'rm-tpc_begin-before', 'rm-commit-after', 'rm-tpc_vote-after', 'rm-tpc_vote-before', 'conflict']
+    rnd.shuffle(sites)
+    inner = st.changes if kind == 'demo-file' else st
+    for site in sites:
+        pre = observe(st, full=False, undolog=False)
+        fbytes = hashlib.sha1(open(path, 'rb').read()).hexdigest() if kind != 'mapping' else None
+        tm.begin()
+        c.root()['a'].payload = 'victim %s' % site
+        c.root()['new-%s' % site] = objs.Cell('new')
+        t = tm.get()
+        expect_fail = True
+        if site.startswith('meta-'):
+            big = 'm' * 70000
+            if site == 'meta-description':
+                t.note(big)
+            elif site == 'meta-user':
+                t.setUser(big)
+            else:
+                t.setExtendedInfo('k', big)
+            expect_fail = kind != 'mapping'        # only FileStorage limits metadata
+        elif site.startswith('rm-'):
+            _, phase, where = site.split('-')
+            t.join(FailingRM(phase, '!before' if where == 'before' else '~~~after'))
+        else:
+            tm2 = transaction.TransactionManager()
+            c2 = db.open(tm2)
+            tm2.begin()
+            c2.root()['a'].payload = 'theirs %s' % site
+            tm2.commit()
+            c2.close()
+            pre = observe(st, full=False, undolog=False)
+            fbytes = hashlib.sha1(open(path, 'rb').read()).hexdigest() if kind != 'mapping' else None
+        failed = False
+        try:
+            tm.commit()
+        except (RuntimeError, ConflictError):
+            failed = True
+            tm.abort()
+        except Exception as e:
+            from ZODB.FileStorage.FileStorage import FileStorageError
+            if not isinstance(e, FileStorageError):
+                raise
+            failed = True
+            tm.abort()
+        sh.count('fault_sites')
+        sh.count('db_level_sites')
+        wit = {'storage': kind, 'site': site}
+        c2_ = dict(case, site=site)
+        if failed != expect_fail:
+            sh.violation('c05:db:%s:%s' % (kind, 'commit-succeeded-although-it-should-fail' if not failed else 'commit-failed-unexpectedly'), wit, c2_)
+            break
+        if not failed:
+            continue
+        sh.count('faults_fired')
+        sh.count('snapshots_compared')
+        if st.tpc_transaction() is not None:
+            sh.violation('c05:db:%s:storage-still-in-the-failed-transaction(%s)' % (kind, site.split('-')[0]), wit, c2_)
+            break
+        if inner._commit_lock.locked() or st._commit_lock.locked():
+            sh.violation('c05:db:%s:commit-lock-held-after-failed-commit(%s)' % (kind, site.split('-')[0]), wit, c2_)
+            break
+        df = first_diff(observe(st, full=False, undolog=False), pre)
+        if df:
+            sh.violation('c05:db:%s:state-changed-by-failed-commit(%s)' % (kind, site.split('-')[0]), dict(wit, diff=df), c2_)
+            break
+        if fbytes is not None:
+            inner._file.flush()
+            if hashlib.sha1(open(path, 'rb').read()).hexdigest() != fbytes:
+                sh.violation('c05:db:%s:data-file-changed-by-failed-commit(%s)' % (kind, site.split('-')[0]), wit, c2_)
+                break
+        # the next transaction (same and another connection) commits normally - cannot block: lock state was just read
+        tm.begin()
+        c.root()['b'].payload = 'after %s' % site
+        tm.commit()
+        sh.count('followup_commits')
+        sh.case(digest('db', kind, site), None)
+    c.close()
+    db.close()
+    return 'db:' + kind
+
+
 def run_shard(params):
     logging.disable(logging.CRITICAL)
     sh = Shard(params)
+    for j in range(3):
+        cdb = {'seed': params['seed'] * 977 + params['shard'] * 13 + j, 'db': True}
+        guarded(sh, 'c05', cdb, lambda: run_victim_db(sh, cdb['seed'], sh.fresh_dir('dbv'), cdb))
     guarded(sh, 'c05', {'seed': params['seed'], 'blobwrap': True}, lambda: run_victim_blobwrap(sh, params['seed'], sh.fresh_dir('bw'), {'seed': params['seed'], 'blobwrap': True}))
     for i in case_indices(params):
         if not sh.time_left():
@@ -633,6 +748,9 @@ def run_shard(params):
 def replay(case, scratch):
     logging.disable(logging.CRITICAL)
     sh = Shard({'scratch': scratch, 'budget_s': 600})
+    if case.get('db'):
+        guarded(sh, 'c05', case, lambda: run_victim_db(sh, case['seed'], sh.fresh_dir('dbv'), case))
+        return sh.violations
     if case.get('blobwrap'):
         guarded(sh, 'c05', case, lambda: run_victim_blobwrap(sh, case['seed'], sh.fresh_dir('bw'), case))
         return sh.violations
